@@ -10,7 +10,7 @@ from ..fold import Folder
 from ..model import AnchorError, Program, dotted, last_attr, norm, parent, walk_no_nested
 from ..report import Check
 from .binder import Binder, core
-from .common import calls_in, guards_of, local_assignments, stmt_of
+from .common import calls_in, guards_of, local_assignments, need_locals, stmt_of
 
 DEFINITE = {"STAR_ARGS": False, "STAR_KWARGS": False, "ELLIPSIS": False, "POK_NAME": False, "POK_IDX": False, "DEF_PROVIDED": True}
 
@@ -108,6 +108,7 @@ def r05_a(prog: Program, chk: Check, b: Binder) -> None:
 def r05_b(prog: Program, chk: Check, b: Binder) -> None:
     chk.rule("R05.b", "tail obligations: leftover positionals without *args and leftover keywords without **kwargs are errors", floor=2)
     fn = b.fn
+    need_locals(fn, "star_args_consumed", "star_kwargs_consumed", "keywords_consumed")
     body = fn.body
     idx = body.index(b.loop)
     tail = body[idx + 1 :]
@@ -139,8 +140,9 @@ def r05_b(prog: Program, chk: Check, b: Binder) -> None:
     chk.ob("R05.b", "signature::Signature.bind_arguments::leftover-keywords", kw_ok, site, "after the loop: keywords minus consumed ones must report an error and return None unless **kwargs consumed them")
 
 
+# error sites that report without returning, identified by the flag that guards them
 R05C_EXCEPTIONS = {
-    "ParamSpec provided but not used": "ParamSpec forwarding is outside the property's signature universe; the binder reports and continues by design",
+    "param_spec_consumed": "ParamSpec forwarding is outside the property's signature universe; the binder reports an unused ParamSpec and continues by design",
 }
 
 
@@ -169,10 +171,11 @@ def r05_c(prog: Program, chk: Check, b: Binder) -> None:
                 text = "".join(str(v.value) for v in msg.values if isinstance(v, ast.Constant))
             elif isinstance(msg, ast.Name):
                 text = msg.id
-            if not ok and any(text.startswith(k) for k in R05C_EXCEPTIONS):
+            if not ok and any(k in norm(g) for g, _ in guards_of(st, b.fn) for k in R05C_EXCEPTIONS):
                 continue
             guard = "&".join(sorted({(("" if pol else "!") + (b.atom_of(g) or ("?", True))[0]) for g, pol in guards_of(st, b.fn) if b.atom_of(g)}))
-            base = f"signature::Signature.bind_arguments::error-returns::{text[:40].strip()}::{guard}"
+            kinds = sorted({d.split(".")[-1] for g, pol in guards_of(st, b.fn) if pol for d in [dotted(x) or "" for x in ast.walk(g)] if d.startswith("ParameterKind.")})
+            base = f"signature::Signature.bind_arguments::error-returns::{'|'.join(kinds) or 'tail'}::{guard}"
             counts[base] = counts.get(base, 0) + 1
             key = base + (f"#{counts[base]}" if counts[base] > 1 else "")
             chk.ob(
